@@ -61,6 +61,11 @@ pub struct Ctx<'a> {
 pub type Oracle = fn(&Ctx<'_>, &mut ShardStats) -> Vec<(String, String)>;
 
 pub fn worker(shard: &str, oracle: Oracle) {
+    worker_with_finish(shard, oracle, |_| {})
+}
+
+/// `finish` runs once after the shard's programs (batch work such as one node invocation per shard)
+pub fn worker_with_finish(shard: &str, oracle: Oracle, finish: fn(&mut ShardStats)) {
     quiet_panics();
     let sh: Shard = serde_json::from_str(shard).unwrap_or_else(|e| machinery_error(&format!("bad shard {e}")));
     let progs = family_programs(&sh.family);
@@ -95,6 +100,7 @@ pub fn worker(shard: &str, oracle: Oracle) {
             stats.samples.push(json!({"family": sh.family, "index": i, "literals": p.literals().iter().map(|l| l.1.clone()).collect::<Vec<_>>()}));
         }
     }
+    finish(&mut stats);
     worker_emit(&serde_json::to_value(&stats).unwrap());
 }
 
